@@ -107,11 +107,20 @@ func (session *ServerCommandSession) FeedSdp(b []byte) {
 //
 // 使用RTSP TCP命令连接，向对端发送RTP数据
 func (session *ServerCommandSession) WriteInterleavedPacket(packet []byte, channel int) error {
+	b := packInterleaved(channel, packet)
 	if session.isWebSocket {
-		respLen := len(packInterleaved(channel, packet))
-		session.writeWsFrameHeader(respLen)
+		// One connection write per frame (header + payload): a full write queue drops whole writes.
+		h := base.MakeWsFrameHeader(base.WsHeader{
+			Fin:           true,
+			Opcode:        base.Wso_Binary,
+			PayloadLength: uint64(len(b)),
+		})
+		frame := make([]byte, len(h)+len(b))
+		copy(frame, h)
+		copy(frame[len(h):], b)
+		b = frame
 	}
-	_, err := session.conn.Write(packInterleaved(channel, packet))
+	_, err := session.conn.Write(b)
 	return err
 }
 
